@@ -23,6 +23,15 @@
                                                  condition: `|conditions| + 1` units of fuel are never exhausted
                                                  (`idcStarO` = the model with its own exhaustion observable,
                                                  `idcstar_model_is_idcStarO`); `idcstar_bound_suffices`: the model's bound is enough
+    * `idcstar_terminates_shared_names`          TERMINATION when outcomes and conditions are copies of the same variables: for every
+                                                 pair of dicts of well-formed keys none of which is SELF-INTERVENED (`IdcInv`, decidable
+                                                 `idcInvB`), any well-formed loop-free graph, all iteration orders, the line-4 recursion
+                                                 ends: some fuel `N` suffices and every larger fuel gives the same run.  Lexicographic
+                                                 measure (#variable names among the outcomes, #conditions named like no outcome); key
+                                                 lemmas: names never migrate between the two sides (`reassoc_general`), rule 2 never
+                                                 accepts a condition that is a copy of an outcome variable (`rule2_name_free`: copies
+                                                 of a variable stay adjacent in the counterfactual graph, `cg_dop`; adjacent nodes are
+                                                 not d-separated).  No explicit bound (see OPEN).
     * `idcstar_division_modelled`                ID* never returns a Fraction: the modelled division covers every case
     * `idcstar_sound_fragment`                   SOUNDNESS ON A NAMED FRAGMENT (`InFragmentC`, decidable: `inFragmentCB`): observational
                                                  conditional queries P(y | x) — factual variables of the graph, unstarred values, no
@@ -30,41 +39,58 @@
                                                  estimand marginalises nothing.  There the returned expression EQUALS
                                                  P(outcomes ∧ conditions) / P(conditions) in every compatible functional SCM
                                                  (via `idstar_sound_fragment`, the repaired `conditional`, marginalisation)
+    * `idcstar_sound_fragment_exchange`          SOUNDNESS IN THE EXCHANGE CASE (`InFragmentX`, decidable: `inFragmentXB`): P(y | x) with
+                                                 ONE factual condition to which rule 2 APPLIES (line 4 recurses) and every outcome a
+                                                 descendant of X (answer: ID*'s estimand for P(y_x)) or none (answer: P(y)).  The
+                                                 returned expression EQUALS P(outcomes ∧ X = x) / P(X = x) in EVERY compatible functional
+                                                 SCM with P(X = x) > 0 — rule 2 of the do-calculus is proved for functional SCMs on the
+                                                 noise space (`Fscm.prob_exchange_marginal`: consistency + independence of disjoint noise
+                                                 coordinates), WITHOUT any positivity assumption on the kernels; its graphical premise
+                                                 is read off the model's own d-separation verdict (`sep_facts_of_no_path`).
     * vocabulary (C06 part) `idcstar_vocab`      every leaf of a returned estimand is a single-world term
 
-  -- OPEN (stated in full, NOT proved outside the fragment; the first is FALSE on the current tree outside it — see the C08
+  -- OPEN (stated in full, NOT proved outside the fragments; the first is FALSE on the current tree outside them — see the C08
   -- entries of known_findings.jsonl):
   --   theorem idcstar_sound : idcStar ordf dordf kordf G outs conds = .ok e → e ≠ .zero → M.Compatible G →
   --       EventWF M (outs ++ conds) → ν.Distinct → 0 < probEvent M ν conds →
   --       den M ν (outs ++ conds) e = probEvent M ν (outs ++ conds) / probEvent M ν conds
-  --     planned reduction (DESIGN §4 C08): `conditional_den_spec_observational` (C13; F11 is repaired for subscripts, the bound-range part is open) + `idstar_sound` (C07; false today: F10)
-  --     + soundness of the exchange step (rule 2 of the do-calculus on the counterfactual graph, via d-separation C04).
-  --     Proved for the no-exchange observational fragment (`idcstar_sound_fragment`).  The next step — one factual condition X
-  --     exchanged for do(x) with every outcome a descendant of X — needs rule 2 for functional SCMs
-  --     (P(y | x) = P(y_x) when Y ⫫ X in G with the edges leaving X removed); `rule2_sound` (Props/C03) proves it for positive
-  --     kernel SCMs, the transfer through Lemmas/FscmToScm needs positive push-forward kernels, which the quantifier of C08
-  --     ("every compatible SCM in which the conditions have positive probability") does not grant.
+  --     Proved on `InFragmentC` (no exchange) and `InFragmentX` (one factual condition exchanged by rule 2; all / no outcomes
+  --     descend from it).  Outside: (a) an exchange made while OTHER conditions remain is wrong in general on the current tree
+  --     (findings exchange:conditions / exchange:separation: the remaining conditions are neither re-subscripted nor conditioned on
+  --     in the separation test), a proof would need rule 2 with a non-empty conditioning set for functional SCMs (conditional
+  --     independence on the noise space) AND a repaired exchange; (b) one factual condition with SOME but not all outcomes descending
+  --     from it: the exchange step itself is covered by `probEvent_rule2_fragX` + `Fscm.solve_nondescendant`, but the recursive call
+  --     is about a two-world event (`Y_x`, `Y'`), outside the fragment on which ID* is proved sound (C07); (c) starred values /
+  --     counterfactual inputs: ID* is wrong there today (F10), inherited; (d) the bound-range part of F11 in the final normalisation.
   --   theorem idcstar_zero_sound : idcStar … = .ok .zero → … → probEvent M ν (outs ++ conds) = 0
   --     proved for Zero from line 3 (`idcstar_zero_line3_sound`) and for Zero coming from ID*'s lines 2 and 5 (C07); Zero from
   --     deeper inside ID* is open (false today: F10/M5).
   --   theorem idcstar_terminates : idcStar … ≠ .error (.internal "fuel")
   --     The two inner ID* calls terminate (Props/C07 `idstar_never_out_of_fuel`).  For the line-4 recursion of IDC* itself:
-  --     PROVED on every input in which no variable NAME occurs both among the outcomes and among the conditions
-  --     (`idcstar_own_recursion_terminates`, explicit bound |conditions| + 1, any graph, any iteration orders): there the
-  --     re-association never adds a condition and every level removes one.
-  --     OPEN when an outcome and a condition are copies of one variable (e.g. Y_x and Y_x'): the re-association of merged nodes
-  --     (`get_new_outcomes_and_conditions`, by variable NAME) can then put a new key into BOTH dicts, so |conditions| grows
-  --     (e.g. graph B → C, outcomes {C_{a,b,c'} = c', B_{a',b,c'} = b'}, conditions {A_{a,b,c'} = a, C_{a} = c}: the next call has
-  --     3 outcomes and 2 conditions, 2 of them shared).  A shared key is never exchanged itself (rule 2 would need it
-  --     d-separated from itself) but the exchange of another condition can SPLIT it into an outcome k_{..,c} and a condition
-  --     k; no linear combination of |keys|, |shared keys|, |unshared conditions|, |unshared outcomes| decreases through both
-  --     steps, a proof needs to know when the merge loop can eliminate a key again.  No looping input was found: 45 000
-  --     random inputs with up to 5 worlds, repeated names and keys shared between outcomes and conditions (and the 50 000 of
-  --     the previous round) never recursed deeper than |conditions| + 1; checked on every generated input by the correspondence.
+  --     PROVED (i) with the explicit bound |conditions| + 1 when no variable NAME occurs both among the outcomes and among the
+  --     conditions (`idcstar_own_recursion_terminates`), (ii) WITHOUT a bound for all inputs without self-intervened keys
+  --     (`idcstar_terminates_shared_names`).
+  --     OPEN (1): an explicit bound in case (ii).  The re-association CAN add conditions there, even at later levels (e.g. graph
+  --     A→D, B→D, C→D, B→Y, C→Y; outcomes D_b, D_c, Y_b; conditions A, Y_c: the second level has 1 condition, its re-association
+  --     returns 2, both shared with the outcomes), and the number of keys can grow by one when an exchange re-subscripts a key that
+  --     is both an outcome and a condition; so the model's own bound 2(|outcomes| + |conditions|) + |V| + 4 is not proved sufficient
+  --     (no input is known on which the recursion is deeper than |conditions| + 1: EVERY input over two variables with ≤ 2 outcomes and
+  --     ≤ 2 conditions on the four two-node ADMGs — 1 336 608 inputs — and over 10 million random inputs with up to 6 variables, 6 worlds,
+  --     9 keys were run through the model, driver op `idc_star_trace`, harness/props/c08_termsearch.py).
+  --     OPEN (2): inputs with a SELF-INTERVENED key (X_x) among outcomes and conditions that share a variable name: a self-intervened
+  --     copy has no noise and hence no edge to the other copies, rule 2 can accept a condition named like a self-intervened outcome,
+  --     and the measure above need not decrease (it does not on about half of such random inputs).  Probable route: count the
+  --     conditions by COLOURED name (not-self-intervened conditions named like no not-self-intervened outcome, plus self-intervened
+  --     conditions that are not outcomes themselves: the exchange removes exactly one of these, a self-intervened key has no ancestor
+  --     and is never re-subscripted); what breaks is that the re-association (which goes by plain name) can move a not-self-intervened
+  --     key to the outcomes because a SELF-INTERVENED outcome of that name was renamed — renamed to a node that `merge_pw` prefers, so
+  --     the multiset of self-intervened outcome keys decreases in the preference order; not formalised.
 -/
 import Y0.Lemmas.CfIdcStar
 import Y0.Lemmas.CfIdcTerm
 import Y0.Lemmas.CfIdcFrag
+import Y0.Lemmas.CfIdcExch
+import Y0.Lemmas.CfIdcTermC
 import Y0.Props.C07
 
 namespace Y0.Cf
@@ -193,34 +219,50 @@ theorem idcstar_fuel_irrelevant (hk : SubsetOrder kordf) (outcomes conditions : 
   obtain ⟨r, hr, _⟩ := idcstar_own_recursion_terminates ordf dordf kordf G hk outcomes conditions hC hdis fuel hfuel
   rw [hr]; rfl
 
+/-! ## 2b'. termination when outcomes and conditions are copies of the same variables -/
+
+theorem idcInv_of_B {O C : Event} (h : idcInvB G O C = true) : IdcInv G O C := by
+  simp only [idcInvB, Bool.and_eq_true, decide_eq_true_eq, List.all_eq_true, Bool.not_eq_true'] at h
+  obtain ⟨⟨h1, h2⟩, h3⟩ := h
+  have hkey : ∀ k, k ∈ O.keys ∨ k ∈ C.keys → ∃ p ∈ O ++ C, p.1 = k := by
+    rintro k (hk | hk)
+    · obtain ⟨p, hp, rfl⟩ := (mem_keys_iff' _ _).1 hk
+      exact ⟨p, by simp [hp], rfl⟩
+    · obtain ⟨p, hp, rfl⟩ := (mem_keys_iff' _ _).1 hk
+      exact ⟨p, by simp [hp], rfl⟩
+  refine ⟨h1, h2, fun p hp => (h3 p (by simp [hp])).1.1.1.1.1, fun p hp => (h3 p (by simp [hp])).1.1.1.1.1, ?_, ?_⟩
+  · intro k hk
+    obtain ⟨p, hp, rfl⟩ := hkey k hk
+    obtain ⟨⟨⟨⟨⟨_, hs⟩, hi⟩, hg⟩, hc⟩, _⟩ := h3 p hp
+    exact ⟨hs, hi, hg, fun i hi' j hj hn => hc i hi' j hj hn⟩
+  · intro k hk
+    obtain ⟨p, hp, rfl⟩ := hkey k hk
+    exact (h3 p hp).2
+
+/-- **IDC\*'s own recursion terminates also when outcomes and conditions are copies of the same variables** (e.g. `Y_x` and
+`Y_{x'}`, `Y` and `Y_x`): for every well-formed loop-free graph, every pair of dicts of well-formed keys none of which is
+self-intervened (`IdcInv`; decidable: `idcInvB`), and all iteration orders, some amount of fuel `N` is enough and every larger fuel gives the same un-exhausted run.
+Measure (lexicographic): (number of variable names among the outcomes, number of conditions named like no outcome).  The
+re-association can ADD conditions here (keys that it puts into both dicts), but only conditions named like an outcome, and rule 2
+never accepts such a condition: copies of one variable in different worlds share their noise, so they are adjacent in the
+counterfactual graph (`cg_dop`) and adjacent nodes are not d-separated (`rule2_name_free`); names never migrate between the two
+sides; for the other names the counterfactual graph construction never increases the number of keys.  No explicit bound is
+claimed: the number of conditions named like outcomes can grow while those names are blocked. -/
+theorem idcstar_terminates_shared_names (hk : SubsetOrder kordf) (hord : PermOrder ordf) (hG : G.WF)
+    (hdl : ∀ e ∈ G.di, e.1 ≠ e.2) (hbl : ∀ e ∈ G.bi, e.1 ≠ e.2) (outcomes conditions : Event)
+    (hinv : IdcInv G outcomes conditions) :
+    ∃ N, ∀ fuel, N ≤ fuel → ∃ r, idcStarO ordf dordf kordf G fuel outcomes conditions = some r ∧
+      idcStarFuel ordf dordf kordf G fuel outcomes conditions = r := by
+  obtain ⟨N, hN⟩ := idcStarO_terminates ordf dordf kordf G hk hord hG hdl hbl _ _ outcomes conditions hinv (Nat.le_refl _)
+    (fun _ => Nat.le_refl _)
+  obtain ⟨r, hr⟩ := Option.isSome_iff_exists.1 hN
+  refine ⟨N, fun fuel hfuel => ⟨r, ?_, ?_⟩⟩
+  · obtain ⟨k, rfl⟩ := Nat.exists_eq_add_of_le hfuel
+    exact idcStarO_mono_le ordf dordf kordf G N k _ _ r hr
+  · obtain ⟨k, rfl⟩ := Nat.exists_eq_add_of_le hfuel
+    rw [idcStarFuel_eq_idcStarO, idcStarO_mono_le ordf dordf kordf G N k _ _ r hr]
+
 /-! ## 2c. soundness on a named fragment -/
-
-/-- static part of the fragment, as an executable test: outcomes and conditions are dicts of FACTUAL variables of `G` with
-unstarred values, no variable name on both sides, at least one condition -/
-def fragCStaticB (G : MG Name) (O C : Event) : Bool :=
-  decide O.keys.Nodup && decide C.keys.Nodup &&
-  (O ++ C).all (fun p => decide (p.1 = Var.plain p.1.name) && decide (p.2 = ⟨p.1.name, false⟩) && decide (p.1.name ∈ G.nodes)) &&
-  O.keys.all (fun o => C.keys.all (fun c => decide (o.name ≠ c.name))) && !C.isEmpty
-
-/-- rule 2 applies to no condition (line 4 does not recurse) -/
-def noExchangeB (ordf : List World → List World) (G : MG Name) (O C : Event) : Bool :=
-  match makeCounterfactualGraph ordf G (O ++ C) with
-  | .ok (cf, some _) => (match firstExchangeable cf O.keys C.keys with | .ok none => true | _ => false)
-  | _ => true
-
-/-- ID*'s estimand for the joint event mentions exactly the event's variables: nothing was marginalised (no `Sum`, whose
-bound variable `Expression.conditional` would sum over a second time — what remains of F11) -/
-def estNamesB (ordf : List World → List World) (dordf : List Var → List Var) (G : MG Name) (O C : Event) : Bool :=
-  match idStar ordf dordf G (O ++ C) with
-  | .ok est => (exprNames est).all (fun n => decide (n ∈ (O ++ C).keys.map (·.name))) &&
-      ((O ++ C).keys.map (·.name)).all (fun n => decide (n ∈ exprNames est))
-  | .error _ => true
-
-/-- **The fragment of IDC\***: observational conditional queries `P(y | x)` (conjunctions of factual variables of `G`, unstarred
-values, outcome names ≠ condition names) on which rule 2 applies to no condition and ID* answers the joint event without
-marginalising a variable.  Decidable from the input (`inFragmentCB` runs the model's own test functions). -/
-def inFragmentCB (ordf : List World → List World) (dordf : List Var → List Var) (G : MG Name) (O C : Event) : Bool :=
-  fragCStaticB G O C && noExchangeB ordf G O C && estNamesB ordf dordf G O C
 
 def InFragmentC (ordf : List World → List World) (dordf : List Var → List Var) (G : MG Name) (O C : Event) : Prop :=
   inFragmentCB ordf dordf G O C = true
@@ -270,6 +312,93 @@ theorem idcstar_sound_fragment (M : Model) (ν : BaseValues) (dom : Name → Nat
     simp only [Bool.and_eq_true, List.all_eq_true, decide_eq_true_eq] at hnm
     exact fun n => ⟨hnm.1 n, hnm.2 n⟩
 
+/-! ## 2d. soundness on the exchange fragment (rule 2 applies to the condition) -/
+
+def InFragmentX (ordf : List World → List World) (G : MG Name) (O C : Event) : Prop :=
+  inFragmentXB ordf G O C = true
+
+/-- **IDC\* is sound on the exchange fragment — rule 2 of the do-calculus for functional SCMs.**  For every functional SCM `M`
+compatible with the (well-formed, loop-free) graph, with normalised noise and values bounded by `dom`, every base values `ν`
+under which the condition has POSITIVE probability: if `(outcomes, {X = x})` is in the exchange fragment (rule 2 applies to `X`;
+every outcome descends from `X`, or none does) and `idc_star` returns `e`, then `e` (read as in C07) EQUALS
+`P(outcomes ∧ X = x) / P(X = x)`.  No positivity of any kernel of `M` is assumed (the
+quantifier of C08 is met as it stands): the exchange `P(y | x) = P(y_x)` is proved on the noise space
+(`Fscm.prob_exchange_marginal`: consistency + independence of disjoint noise coordinates), its graphical premise is read off the
+model's d-separation verdict on the counterfactual graph (`sep_facts_of_no_path`, `MG.no_ancAdj_path_of_dSeparated`), and
+`P(y_x)` — which is `P(y)` when no outcome descends from `X` (`Fscm.solve_nondescendant`) — is ID*'s answer by
+`idstar_sound_fragment` (C07). -/
+theorem idcstar_sound_fragment_exchange (M : Model) (ν : BaseValues) (dom : Name → Nat) (hM : Compatible M G)
+    (hnorm : M.Normalised) (hdom : ∀ v ps us, M.f v ps us < dom v) (hG : G.WF) (hdl : ∀ e ∈ G.di, e.1 ≠ e.2)
+    (hbl : ∀ e ∈ G.bi, e.1 ≠ e.2) (hord : PermOrder ordf) (hdo : PermDistrict dordf)
+    (outcomes conditions : Event) (hfr : InFragmentX ordf G outcomes conditions) (e : Expr)
+    (h : idcStar ordf dordf kordf G outcomes conditions = .ok e) (hpos : 0 < probEvent M ν conditions) :
+    cden M ν dom e (fun n => ν n false) = probEvent M ν (outcomes ++ conditions) / probEvent M ν conditions := by
+  unfold InFragmentX inFragmentXB fragXStaticB at hfr
+  simp only [Bool.and_eq_true, Bool.not_eq_true', List.isEmpty_eq_false_iff, decide_eq_true_eq] at hfr
+  obtain ⟨⟨⟨hst, hOne⟩, hlen⟩, hdyn⟩ := hfr
+  have hfrC := fragC_of_static G hst
+  -- the single condition is `X = x`
+  obtain ⟨c, val, rfl⟩ : ∃ c val, conditions = [(c, val)] := by
+    match conditions, hlen with
+    | [(c, val)], _ => exact ⟨c, val, rfl⟩
+  have hc : c = Var.plain c.name := hfrC.plain (c, val) (by simp)
+  have hv : val = ⟨c.name, false⟩ := hfrC.unst (c, val) (by simp)
+  have hcond : [(c, val)] = condOf c.name := by rw [hv]; unfold condOf; rw [← hc]
+  have hb : idcStarFuelBound G outcomes [(c, val)] = (2 * outcomes.length + G.nodes.length + 4) + 2 := by
+    unfold idcStarFuelBound; simp only [List.length_cons, List.length_nil]; omega
+  unfold idcStar at h
+  rw [hb] at h
+  unfold exchangeB at hdyn
+  simp only at hdyn
+  rw [hc, hv] at hdyn
+  rw [hcond] at h hfrC hpos ⊢
+  -- what the dynamic test says, for whatever counterfactual graph line 2 returns
+  have hsplit : ∀ cf nev, makeCounterfactualGraph ordf G (outcomes ++ condOf c.name) = .ok (cf, some nev) →
+      (∃ c', firstExchangeable cf outcomes.keys (condOf c.name).keys = .ok (some c')) ∧
+      (exchangeAllB cf outcomes (Var.plain c.name) = true ∨
+       exchangeNoneB cf outcomes (Var.plain c.name) = true) := by
+    intro cf nev hcg
+    rw [hcg] at hdyn
+    simp only at hdyn
+    cases hfe : firstExchangeable cf outcomes.keys (condOf c.name).keys with
+    | error err => rw [hfe] at hdyn; cases hdyn
+    | ok oc =>
+      rw [hfe] at hdyn
+      cases oc with
+      | none => cases hdyn
+      | some c' =>
+        simp only [Bool.or_eq_true] at hdyn
+        exact ⟨⟨c', rfl⟩, hdyn⟩
+  -- which of the two cases: decided by the (unique) run of line 2
+  cases hcg0 : makeCounterfactualGraph ordf G (outcomes ++ condOf c.name) with
+  | error err =>
+    exfalso
+    unfoldIdc at h
+    rw [hfrC.ofList, hcg0] at h
+    cases h1 : line1 (idStar ordf dordf G (condOf c.name)) with
+    | error err => rw [h1] at h; cases h
+    | ok u => rw [h1] at h; cases h
+  | ok r =>
+    obtain ⟨cf0, o0⟩ := r
+    obtain ⟨nev0, rfl, _⟩ := frag_facts hord hG hdl hbl hfrC.frag (by simp) hcg0
+    rcases (hsplit cf0 nev0 hcg0).2 with hall | hnone
+    · -- every outcome descends from `X`
+      apply idcStarFuel_sound_fragX_all ordf dordf kordf G M ν dom hM (fun pmf hp => (hnorm pmf hp).2) hdom hG hdl hbl hord hdo
+        hfrC hOne ?_ _ e h (ne_of_gt hpos)
+      intro cf nev hcg
+      rw [hcg0] at hcg
+      simp only [Except.ok.injEq, Prod.mk.injEq, Option.some.injEq] at hcg
+      obtain ⟨rfl, rfl⟩ := hcg
+      exact ⟨(hsplit cf0 nev0 hcg0).1, hall⟩
+    · -- no outcome descends from `X`
+      apply idcStarFuel_sound_fragX_none ordf dordf kordf G M ν dom hM (fun pmf hp => (hnorm pmf hp).2) hdom hG hdl hbl hord hdo
+        hfrC hOne ?_ _ e h (ne_of_gt hpos)
+      intro cf nev hcg
+      rw [hcg0] at hcg
+      simp only [Except.ok.injEq, Prod.mk.injEq, Option.some.injEq] at hcg
+      obtain ⟨rfl, rfl⟩ := hcg
+      exact ⟨(hsplit cf0 nev0 hcg0).1, hnone⟩
+
 /-! ## 3. vocabulary (C06, IDC* part) -/
 
 /-- every estimand IDC* returns is built from single-world interventional terms -/
@@ -290,6 +419,14 @@ example : SubsetOrder (fun l : List Var => l) ∧
       ∀ c ∈ Event.keys [(⟨2, none, false, []⟩, ⟨2, false⟩)], o.name ≠ c.name) := by
   refine ⟨fun _ _ h => h, by decide, by decide⟩
 
+/-- the hypotheses of `idcstar_terminates_shared_names` are satisfiable by inputs on which a name IS shared: on `A → Y` (A=0, Y=1)
+the query `P(Y_a = y | Y = y')`, and with two worlds `P(Y_a = y, Y_{a'} = y | Y = y', A = a)` -/
+example : idcInvB (MG.fromEdges [0, 1] [(0, 1)] []) [(⟨1, none, false, [⟨0, false⟩]⟩, ⟨1, false⟩)]
+    [(Var.plain 1, ⟨1, true⟩)] = true := by decide
+example : idcInvB (MG.fromEdges [0, 1] [(0, 1)] [])
+    [(⟨1, none, false, [⟨0, false⟩]⟩, ⟨1, false⟩), (⟨1, none, false, [⟨0, true⟩]⟩, ⟨1, false⟩)]
+    [(Var.plain 1, ⟨1, true⟩), (Var.plain 0, ⟨0, false⟩)] = true := by decide
+
 /-- the fragment is not empty: `P(Y = y | X = x)` on the bow graph `X → Y`, `X ↔ Y` (X=0, Y=1; rule 2 does not apply, the
 answer is `P(X, Y) / Σ_Y P(X, Y)`), and `P(X = x | Y = y)` on `X → Y` -/
 example : inFragmentCB sortWorlds (sortBy Var.keyLt) (MG.fromEdges [0, 1] [(0, 1)] [(0, 1)])
@@ -299,6 +436,37 @@ example : inFragmentCB sortWorlds (sortBy Var.keyLt) (MG.fromEdges [0, 1] [(0, 1
 /-- … and `P(Y = y | X = x)` on `X → Y` is outside it (rule 2 applies: line 4 recurses) -/
 example : inFragmentCB sortWorlds (sortBy Var.keyLt) (MG.fromEdges [0, 1] [(0, 1)] [])
     [(Var.plain 1, ⟨1, false⟩)] [(Var.plain 0, ⟨0, false⟩)] = false := by decide
+
+/-- the exchange fragment is not empty: `P(Y = y | X = x)` on `X → Y` (X=0, Y=1; rule 2 applies, the answer is `P[X](Y)`), on
+`W → X → Y` (W=2), with a latent confounder of `Y` and another variable (`X → Y`, `Y ↔ Z`), and two outcomes on `X → Y → Z` -/
+example : inFragmentXB sortWorlds (MG.fromEdges [0, 1] [(0, 1)] [])
+    [(Var.plain 1, ⟨1, false⟩)] [(Var.plain 0, ⟨0, false⟩)] = true := by decide
+example : inFragmentXB sortWorlds (MG.fromEdges [0, 1, 2] [(2, 0), (0, 1)] [])
+    [(Var.plain 1, ⟨1, false⟩)] [(Var.plain 0, ⟨0, false⟩)] = true := by decide
+set_option maxRecDepth 4000 in
+example : inFragmentXB sortWorlds (MG.fromEdges [0, 1, 2] [(0, 1)] [(1, 2)])
+    [(Var.plain 1, ⟨1, false⟩)] [(Var.plain 0, ⟨0, false⟩)] = true := by decide
+example : inFragmentXB sortWorlds (MG.fromEdges [0, 1, 2] [(0, 1), (1, 2)] [])
+    [(Var.plain 1, ⟨1, false⟩), (Var.plain 2, ⟨2, false⟩)] [(Var.plain 0, ⟨0, false⟩)] = true := by decide
+/-- … and the case in which no outcome descends from the condition: two unrelated variables; `W → X`, `Z → Y` (W=2, Z=3) -/
+example : inFragmentXB sortWorlds (MG.fromEdges [0, 1] [] [])
+    [(Var.plain 1, ⟨1, false⟩)] [(Var.plain 0, ⟨0, false⟩)] = true := by decide
+example : inFragmentXB sortWorlds (MG.fromEdges [0, 1, 2, 3] [(2, 0), (3, 1)] [])
+    [(Var.plain 1, ⟨1, false⟩)] [(Var.plain 0, ⟨0, false⟩)] = true := by decide
+/-- … the bow graph `X → Y`, `X ↔ Y` is outside it (rule 2 does not apply: it is in `InFragmentC`), and so is a confounded
+`W → X`, `W → Y`, `X → Y` -/
+example : inFragmentXB sortWorlds (MG.fromEdges [0, 1] [(0, 1)] [(0, 1)])
+    [(Var.plain 1, ⟨1, false⟩)] [(Var.plain 0, ⟨0, false⟩)] = false := by decide
+example : inFragmentXB sortWorlds (MG.fromEdges [0, 1, 2] [(2, 0), (2, 1), (0, 1)] [])
+    [(Var.plain 1, ⟨1, false⟩)] [(Var.plain 0, ⟨0, false⟩)] = false := by decide
+/-- the semantic hypotheses of `idcstar_sound_fragment_exchange` are those of `idstar_sound_fragment` (satisfied by
+`Example07.mBA2` on `B → A`, Props/C07.lean) plus a possible condition; `P(A = a | B = b)` on that graph is in the exchange
+fragment and `B = b` has probability `1/3` in that model for the base values `b = 0` -/
+example : inFragmentXB sortWorlds Example07.gBA [(Example07.A, ⟨0, false⟩)] [(Example07.B, ⟨1, false⟩)] = true := by decide
+example : probEvent Example07.mBA2 (fun _ _ => 0) [(Example07.B, ⟨1, false⟩)] = 1 / 3 := by
+  simp [probEvent, prob, space, conjunctOf, worldOf, ivValue, holds, solve, step, forced, update, Example07.mBA2,
+    Example07.B, Var.plain, List.zipIdx]
+  norm_num
 
 /-- the order the correspondence check uses for the re-associated keys satisfies the hypothesis on `kordf` -/
 example (rev : Bool) : SubsetOrder (orderDistrict rev) := subsetOrder_orderDistrict rev
